@@ -28,7 +28,11 @@ func c12StepCheck(x *cpuCtx, c *cpuCase) (sig, what string, nontrivial bool) {
 		m := x.ms[i]
 		m.Mem().ResetFrom(&x.img)
 		raw := mkRaw(c.S, c.Stale, c.Int)
-		raw.AllCycles = 1000
+		start := uint64(1000)
+		if c.Stale != 0 {
+			start = ^uint64(0) - 1 // the running total is about to wrap (the stale-copy valuations double as odd start states)
+		}
+		raw.AllCycles = start
 		m.Load(raw)
 		var wdmCalls []byte
 		m.SetOnWDM(func(b byte) { wdmCalls = append(wdmCalls, b) })
@@ -43,8 +47,8 @@ func c12StepCheck(x *cpuCtx, c *cpuCase) (sig, what string, nontrivial bool) {
 		if cy < 1 {
 			return "unexplained:cycles-below-1:" + tag, fmt.Sprintf("%s Step reported %d cycles | case %s", name, cy, c.String()), true
 		}
-		if post.AllCycles != 1000+uint64(cy) {
-			return "unexplained:allcycles:" + tag, fmt.Sprintf("%s Step reported %d cycles but AllCycles grew by %d | case %s", name, cy, int64(post.AllCycles)-1000, c.String()), true
+		if post.AllCycles != start+uint64(cy) {
+			return "unexplained:allcycles:" + tag, fmt.Sprintf("%s Step reported %d cycles but AllCycles grew by %d | case %s", name, cy, int64(post.AllCycles-start), c.String()), true
 		}
 		wantStop := c.S.Stopped || (e.Mn == "STP" && c.Int <= 1)
 		if c.Int > 1 {
@@ -133,6 +137,9 @@ type c12Run struct {
 	Budget uint64   `json:"budget"`
 	Logger int      `json:"logger"` // 0 none, 1 plain writer, 2 writer with Reserve/Commit
 	OnPCAt []uint32 `json:"onpc,omitempty"`
+	// Cycles0: the CPU's running cycle total when RunUntil is called (an exported field, part of the start
+	// state): the budget counts the cycles of THIS call, wherever the running total stands -- also just below 2^64
+	Cycles0 uint64 `json:"cycles0,omitempty"`
 }
 
 type c12World struct {
@@ -275,6 +282,7 @@ func c12Prepare(s *emulator.System, r c12Run) {
 	s.Logger = nil
 	s.CPU.OnPC = nil
 	c12SetState(s, r.Start)
+	s.CPU.AllCycles = r.Cycles0
 }
 
 // c12Exec runs one RunUntil scenario on the system under test and the manual twin loop.
@@ -349,7 +357,7 @@ func c12Exec(w *c12World, r c12Run) (sig, what string) {
 	w.busy = nil
 	c12WatchMu.Unlock()
 	desc := func() string {
-		return fmt.Sprintf("program %v at $%06x target $%06x budget %d logger %d", r.Prog, r.Start, r.Target, r.Budget, r.Logger)
+		return fmt.Sprintf("program %v at $%06x target $%06x budget %d logger %d running total at entry %d", r.Prog, r.Start, r.Target, r.Budget, r.Logger, r.Cycles0)
 	}
 	if pn != nil {
 		if _, ok := pn.(c12Sentinel); ok {
@@ -559,6 +567,12 @@ func runC12(r *report.Run) {
 		budgets = append(budgets, 4, 6, 7, 21, 100)
 	}
 	runs := c12Scenarios(pdepth, []int{0}, budgets)
+	for _, rr := range runs[:len(runs):len(runs)] {
+		if rr.Budget == 1 || rr.Budget == 3 || rr.Budget == 8 {
+			rr.Cycles0 = ^uint64(0) - 2 // the running total wraps during the call
+			runs = append(runs, rr)
+		}
+	}
 	c12Watchdog(r, "C12", 120*time.Second)
 	worlds := make([]*c12World, par.Workers())
 	var executed int64
@@ -590,7 +604,7 @@ func runC12(r *report.Run) {
 			r.Sample(cs)
 		}
 	}
-	r.Set("rule", "Step part: every case of the five sweeps (E, pending interrupts, Stopped before/after) on both interpreters: cycles >= 1, AllCycles grows by exactly the reported count, stop status as specified, OnWDM receives exactly the operand (all 256); sequences: the same along every program of the search incl. steps after STP and Reset. RunUntil part: every program up to depth 3 over a 16-instruction alphabet (loops, STP, block move, calls) x 2 placements x every instruction boundary / inside-operand / unreachable target x the budget alphabet on a real emulator.System, compared with a twin System stepped by hand (final CPU state, memory, result; then a second RunUntil call on the same System towards the end of the program, compared again) with program-counter callbacks on every program byte (exactly once per fetch, pre-instruction state) that double as a non-termination guard")
+	r.Set("rule", "Step part: every case of the five sweeps (E, pending interrupts, Stopped before/after) on both interpreters: cycles >= 1, AllCycles grows by exactly the reported count, stop status as specified, OnWDM receives exactly the operand (all 256); sequences: the same along every program of the search incl. steps after STP and Reset. RunUntil part: every program up to depth 3 over a 16-instruction alphabet (loops, STP, block move, calls) x 2 placements x every instruction boundary / inside-operand / unreachable target x the budget alphabet (budgets 1, 3, 8 also with the running cycle total two below 2^64 at entry) on a real emulator.System, compared with a twin System stepped by hand (final CPU state, memory, result; then a second RunUntil call on the same System towards the end of the program, compared again) with program-counter callbacks on every program byte (exactly once per fetch, pre-instruction state) that double as a non-termination guard")
 	r.Sample(c12Run{Prog: []string{"LDA #$1234", "BRA -2"}, Start: 0x7E2000, Target: 0x7E2003, Budget: 13})
 	r.Sample(c12Run{Prog: []string{"STP", "NOP"}, Start: 0x008000, Target: 0x008001, Budget: 50})
 	r.Assume("the twin is a second real System stepped by hand: the loop logic of RunUntil is judged, the Step semantics are judged by C01/C02")
